@@ -342,7 +342,7 @@ def deriveMaskSel (s : State) (v : Msk) (m : Mode) (sel : Sel) : Msk × State :=
   | none => deriveMask s v m sel.midx
 
 /-- obj.__init__(new_values, new_mask, example=self); obj._readonly_ = self._readonly_
-    if obj._readonly_: freeze both arrays            (repair 7770fce: NumPy may have returned a copy)
+    if obj._readonly_: freeze both arrays            (repair 8cbd84d: NumPy may have returned a copy)
     For `bcast` the flag comes from `as_readonly` (qube.py:4605), which is the same thing because the broadcast
     arrays are non-writeable. -/
 def finishDerived (s : State) (nv : Val) (nm : Msk) (o : Obj) (m : Mode) : Nat × State :=
@@ -437,7 +437,7 @@ def neg (s : State) (i : Nat) : Nat × State :=
     (c.1, o.derivs.foldl (negStep c.1) c.2)
   | none => (i, s)
 
-/-! ### pickling round trip (pickler.py:799-942, 945-1062; repaired by 7a2532a) -/
+/-! ### pickling round trip (pickler.py:799-942, 945-1062; repaired by 1211231) -/
 
 /-- what the encoder sees in the mask (data of the request) -/
 inductive MaskClass where
@@ -459,7 +459,7 @@ def decode (s : State) (o : Obj) (mc : MaskClass) : (Val × Msk) × State :=
       | .sc b => ((.arr r.1, .sc b), r.2)
 
 /-- `__setstate__` of one object without its derivatives.
-    top: lines 1035-1039 as repaired (7a2532a): the flag came with `__dict__`; the decoded arrays are frozen directly.
+    top: lines 1035-1039 as repaired (1211231): the flag came with `__dict__`; the decoded arrays are frozen directly.
     derivative: a derivative decoded under its parent's antimask gets the parent's mask object (lines 1052-1057); then
     lines 1059-1061 as repaired: clear the flag, then as_readonly(). -/
 def unpickleNR (s : State) (o : Obj) (mc : MaskClass) (parentMask : Option Msk) (top : Bool) : Nat × State :=
